@@ -246,6 +246,8 @@ class SimTransport(transports._FlowControlMixin, transports.Transport):
         self.other = None             # peer SimTransport
         self._closing = False         # close() called locally
         self._conn_lost = False       # connection_lost scheduled/called
+        self._sock_closed = False     # the socket itself is closed: only when connection_lost has RUN on the owning loop
+        self._sock_close = None       # how it will be closed: 'fin' | 'rst'
         self._paused = False
         self._eof_sent = False
         self._server = server
@@ -324,13 +326,20 @@ class SimTransport(transports._FlowControlMixin, transports.Transport):
         if not self._closing:
             self._closing = True
         self._conn_lost = True
-        self.net._endpoint_gone(self, abort=True)
+        self._sock_close = "rst"
         self._loop.call_soon(self._call_connection_lost, exc)
 
     def _call_connection_lost(self, exc):
+        # As in asyncio's selector transport the socket is closed HERE, on the owning loop, not in close(): close() only
+        # stops reading and schedules this call.  A close() issued from a foreign thread while the loop sleeps in select()
+        # therefore closes nothing until something else wakes the loop - the peer sees neither FIN nor RST meanwhile, and
+        # data it sends is accepted by the kernel and never read.
         try:
             self._protocol.connection_lost(exc)
         finally:
+            self._sock_closed = True
+            # closing a socket that still holds unread received data makes the kernel send RST instead of FIN
+            self.net._endpoint_gone(self, abort=(self._sock_close == "rst" or bool(self.rx)))
             if self in self._loop._transports_rx:
                 self._loop._transports_rx.remove(self)
             server = self._server
@@ -399,7 +408,7 @@ class SimTransport(transports._FlowControlMixin, transports.Transport):
             return
         self._closing = True
         self._conn_lost = True
-        self.net._endpoint_gone(self, abort=False)
+        self._sock_close = "fin"
         self._loop.call_soon(self._call_connection_lost, None)
 
     def abort(self):
@@ -635,7 +644,7 @@ class SimNet:
         if p.fin:
             p.fin = False
             p.dead = True
-            if dst._conn_lost or dst._closing:
+            if dst._sock_closed:
                 return
             dst.rx_fin = True
             self.stats["net_fin_delivered"] += 1
@@ -647,7 +656,7 @@ class SimNet:
         p.delivered += len(frag)
         self.world.note(f"net {p.label} {len(frag)}")
         self.stats["net_deliveries"] += 1
-        if dst._conn_lost or dst._closing:
+        if dst._sock_closed:
             # data for a closed socket: RST back to the sender
             src = p.src
             p.buf.clear()
